@@ -3,7 +3,7 @@ use crate::bits;
 use crate::core::*;
 use crate::refdec::{self, Expect, Fields};
 use adsb_deku::Frame;
-use serde_json::json;
+use serde_json::{json, Value};
 use std::panic::{catch_unwind, AssertUnwindSafe};
 
 pub enum Decoded {
@@ -209,4 +209,67 @@ pub fn run_case(st: &mut Stats, check: &str, buf: &[u8], eval: &dyn Fn(&[u8]) ->
         });
     }
     failed
+}
+
+/// First use under contention: each job is a set of frames that a fresh child process decodes as
+/// its very first act, every frame on its own thread, all threads released together (anything the
+/// library sets up lazily at first use is set up under contention).  The child's Debug text of
+/// each frame must equal the text this process gets for the same bytes.  Returns the first
+/// difference: (job index, frame index, text here, text in the child).
+pub fn first_use_contention(jobs: &[Vec<Vec<u8>>]) -> Option<(usize, usize, String, String)> {
+    use std::io::Write;
+    let mut out: Vec<Option<(usize, usize, String, String)>> = vec![];
+    std::thread::scope(|sc| {
+        let hs: Vec<_> = (0..WORKERS)
+            .map(|w| {
+                sc.spawn(move || {
+                    let mut bad = None;
+                    for (ji, frames) in jobs.iter().enumerate() {
+                        if ji % WORKERS != w || bad.is_some() {
+                            continue;
+                        }
+                        let Ok(exe) = std::env::current_exe() else { continue };
+                        let Ok(mut child) = std::process::Command::new(exe).arg("helper").stdin(std::process::Stdio::piped()).stdout(std::process::Stdio::piped()).stderr(std::process::Stdio::null()).spawn() else { continue };
+                        let req = json!({"cmd": "firstdecode", "frames": frames.iter().map(|b| bits::hex(b)).collect::<Vec<_>>()});
+                        if let Some(mut si) = child.stdin.take() {
+                            let _ = si.write_all(req.to_string().as_bytes());
+                        }
+                        let Ok(o) = child.wait_with_output() else { continue };
+                        let Ok(v) = serde_json::from_slice::<Value>(&o.stdout) else { continue };
+                        for (k, b) in frames.iter().enumerate() {
+                            let Some(got) = v["texts"][k].as_str() else { continue };
+                            let here = match std::panic::catch_unwind(|| adsb_deku::Frame::from_bytes(b)) {
+                                Ok(Ok(f)) => format!("crc={:06x} {f:?}", f.crc),
+                                Ok(Err(_)) => "Err".to_string(),
+                                Err(_) => continue,
+                            };
+                            if got != here {
+                                bad = Some((ji, k, here, got.to_string()));
+                                break;
+                            }
+                        }
+                    }
+                    bad
+                })
+            })
+            .collect();
+        for h in hs {
+            out.push(h.join().unwrap_or(None));
+        }
+    });
+    out.into_iter().flatten().next()
+}
+
+/// replay of a first-use case: the same frames to 400 fresh processes
+pub fn replay_first_use(pid: &str, v: &Value) -> Vec<Failure> {
+    let frames: Vec<Vec<u8>> = v.get("frames").and_then(|x| x.as_array()).map(|a| a.iter().filter_map(|h| h.as_str().and_then(bits::unhex)).collect()).unwrap_or_default();
+    let jobs: Vec<Vec<Vec<u8>>> = (0..400).map(|_| frames.clone()).collect();
+    match first_use_contention(&jobs) {
+        Some((_, k, here, there)) => vec![Failure { sig: format!("{pid}/first_use_race"), msg: format!("frame {} decoded as the first act of a fresh process, beside {} other threads doing the same: `{}`; decoded here: `{}`", bits::hex(&frames[k]), frames.len() - 1, short_txt(&there), short_txt(&here)), replay: v.clone() }],
+        None => vec![],
+    }
+}
+
+fn short_txt(s: &str) -> String {
+    s.chars().take(220).collect()
 }
